@@ -336,7 +336,9 @@ func c08CheckPayload(c *c08Codec, root reflect.Value, leafs []c08Leaf, vals []re
 	if err != nil {
 		return "proto-marshal-error:" + c.Name + ":" + seg, desc + err.Error()
 	}
-	if n := c.Size(p); n != len(pb) {
+	if c.Size == nil {
+		// the wrapper has no size method
+	} else if n := c.Size(p); n != len(pb) {
 		return "size-mismatch:" + c.Name + ":" + seg, fmt.Sprintf("%s Size()=%d len(encoding)=%d", desc, n, len(pb))
 	}
 	back, err := c.UnmarshalPB(pb)
@@ -454,12 +456,37 @@ func c08CheckBytes(c *c08Codec, b []byte, isJSON bool) (sig, what string) {
 	return "", ""
 }
 
-func c08Main(t *testing.T, c *c08Codec) {
-	ctx := vr.Start("C08", c.Name)
+func c08Main(t *testing.T, c *c08Codec) { c08MainMulti(t, c.Name, c) }
+
+// c08MainMulti runs several codecs hosted in one package (e.g. the export request and response wrappers) as one unit.
+func c08MainMulti(t *testing.T, unit string, codecs ...*c08Codec) {
+	ctx := vr.Start("C08", unit)
 	if ctx == nil {
 		t.Skip("not driven")
 	}
 	defer ctx.Finish()
+	if ctx.ReplayRaw != nil {
+		var rf struct {
+			Replay c08Case `json:"replay"`
+		}
+		if err := json.Unmarshal(ctx.ReplayRaw, &rf); err != nil {
+			t.Fatal(err)
+		}
+		for _, c := range codecs {
+			if c.Name == rf.Replay.Codec || len(codecs) == 1 {
+				c08Run(t, ctx, c)
+			}
+		}
+		return
+	}
+	for _, c := range codecs {
+		c08Run(t, ctx, c)
+	}
+	ctx.R.States = ctx.R.Evals
+}
+
+func c08Run(t *testing.T, ctx *vr.Ctx, c *c08Codec) {
+	c08OneofAlts, c08OnPath = map[reflect.Type][]reflect.Type{}, map[reflect.Type]int{}
 	c08RegisterOneofs(c.Root, map[reflect.Type]bool{})
 	var leaves []c08Leaf
 	c08EnumLeaves(c.Root, "", "", func(root reflect.Value) reflect.Value { return root }, 0, &leaves)
